@@ -33,9 +33,9 @@ func productLeaves(o genOpts, withSafeKinds bool) []*D {
 		case "bool", "NBool":
 			out = append(out, dN(k, 0), dN(k, 1))
 		case "float32", "float64", "NFloat":
-			out = append(out, &D{K: k, F: 0}, &D{K: k, F: -1234.5678})
+			out = append(out, &D{K: k, F: 0}, &D{K: k, F: -1234.5678}, &D{K: k, S: "NaN"}, &D{K: k, S: "-Inf"}, &D{K: k, S: "-0"})
 		case "complex64", "complex128":
-			out = append(out, &D{K: k, F: 0, N: 0}, &D{K: k, F: 1.5, N: -2})
+			out = append(out, &D{K: k, F: 0, N: 0}, &D{K: k, F: 1.5, N: -2}, &D{K: k, S: "NaN", N: 3}, &D{K: k, S: "+Inf", N: 0})
 		case "string", "NStr", "bytes", "NBytes", "barr":
 			out = append(out, dS(k, ""), dS(k, rich))
 		default:
